@@ -34,31 +34,18 @@ def classify(w):
     return None
 
 
-class SchedLock:
-    """threading.Lock look-alike whose waiting is visible to the
-    scheduler."""
+SchedLock = SC.SchedLock
+_last_undo = []
 
-    def __init__(self, sched, pending_binary=False):
-        self.sched = sched
-        self.pending_binary = pending_binary
-        self.owner = None
 
-    def acquire(self, blocking=True, timeout=-1):
-        if self.owner is not None and self.sched.me() is not None:
-            self.sched.block_until(lambda: self.owner is None, 'lock')
-        self.owner = self.sched.me() if self.sched.me() is not None else -1
-        return True
-
-    def release(self):
-        self.owner = None
-
-    __enter__ = acquire
-
-    def __exit__(self, *a):
-        self.release()
-
-    def locked(self):
-        return self.owner is not None
+def _patch_locks(sched):
+    import socketio.base_manager
+    import socketio.base_server
+    import socketio.manager
+    import socketio.server
+    return SC.patch_module_locks(sched, [
+        socketio.base_manager, socketio.manager, socketio.server,
+        socketio.base_server])
 
 
 class SchedDict(dict):
@@ -103,6 +90,10 @@ class World:
     def __init__(self, sched, pending_binary=False):
         self.sched = sched
         self.pending_binary = pending_binary
+        # (a lock patch left over by an earlier world must not leak into the
+        # objects of this one)
+        while _last_undo:
+            _last_undo.pop()()
         self.d = D.SyncDrive(async_handlers=False, autojoin=False,
                              namespaces=['/', '/b'])
         d = self.d
@@ -152,7 +143,7 @@ class World:
         # a lock held by a descheduled actor must not block the running one
         # outside the scheduler's control
         for attr, val in list(m.__dict__.items()):
-            if isinstance(val, type(threading.Lock())):
+            if isinstance(val, (type(threading.Lock()), SchedLock)):
                 setattr(m, attr, SchedLock(sched))
         eio = self.d.eio
         orig_send = eio.send_packet
@@ -161,6 +152,9 @@ class World:
             sched.yield_point('eio.send_packet')
             return orig_send(sid, pkt)
         eio.send_packet = send_packet
+        # locks the code under test creates from now on are scheduler-aware
+        self.undo_locks = _patch_locks(sched)
+        _last_undo.append(self.undo_locks)
         sio = self.d.sio
         sio._binary_packet = SchedDict(sched, sio._binary_packet,
                                        'binary_packet')
@@ -192,6 +186,12 @@ class NoSched:
 
 
 def unwrap(w):
+    undo = getattr(w, 'undo_locks', None)
+    if undo:
+        undo()
+        w.undo_locks = None
+        if undo in _last_undo:
+            _last_undo.remove(undo)
     sio = w.d.sio
     if isinstance(sio._binary_packet, SchedDict):
         sio._binary_packet = dict(sio._binary_packet)
@@ -248,9 +248,8 @@ def run_schedule(ctx, causes, choices, rng, bound, line_level, base,
            'gate_passed_by': len({a for a, _ in w.gate}),
            'line_level': line_level, 'partial_binary_packet': pending_binary}
     if sched.aborted:
-        wit['aborted'] = sched.aborted
-        ctx.violation(None, 'schedule did not complete: %s' % sched.aborted,
-                      wit)
+        SC.report_abort(ctx, sched, wit)
+        unwrap(w)
         return trace, 'aborted'
     outcome = []
     errs = list(sched.errors) + w.d.errors()
@@ -375,9 +374,8 @@ def run_recon_schedule(ctx, causes, choices, rng, bound=None):
            'frames_to_client': [[p['type'], p['nsp'], p['id'], p['data']]
                                 for p in t.packets]}
     if sched.aborted:
-        wit['aborted'] = sched.aborted
-        ctx.violation(None, 'schedule did not complete: %s' % sched.aborted,
-                      wit)
+        SC.report_abort(ctx, sched, wit)
+        unwrap(w)
         return trace, 'aborted'
     errs = list(sched.errors) + d.errors()
     if errs:
